@@ -670,14 +670,16 @@ class TableAttributes(TextAttributes):
             cells = []
 
             for j in range(dim[1]):
-                if j == dim[1] - 1:
-                    border_right = Border(
-                        style=BroadcastValue(
-                            value=self.border_right, dimension=dim
-                        ).iloc(i + row_offset, j)
+                border_width = get_broadcast_value("border_width", i, j)
+
+                def make_border(side, i=i, j=j, border_width=border_width):
+                    return Border(
+                        style=get_broadcast_value(f"border_{side}", i, j),
+                        width=border_width,
+                        color=get_broadcast_value(f"border_color_{side}", i, j) or None,
                     )
-                else:
-                    border_right = None
+
+                border_right = make_border("right") if j == dim[1] - 1 else None
 
                 # Handle null values - display as empty string instead of "None"
                 raw_value = row[j]
@@ -704,12 +706,10 @@ class TableAttributes(TextAttributes):
                         hyphenation=get_broadcast_value("text_hyphenation", i, j),
                     ),
                     width=col_widths[j],
-                    border_left=Border(style=get_broadcast_value("border_left", i, j)),
+                    border_left=make_border("left"),
                     border_right=border_right,
-                    border_top=Border(style=get_broadcast_value("border_top", i, j)),
-                    border_bottom=Border(
-                        style=get_broadcast_value("border_bottom", i, j)
-                    ),
+                    border_top=make_border("top"),
+                    border_bottom=make_border("bottom"),
                     vertical_justification=get_broadcast_value(
                         "cell_vertical_justification", i, j
                     ),
